@@ -62,3 +62,7 @@ Definition instance_spec (c : config) (n : node) : Prop :=
 
 (* every component the configuration calls for can be created by its factory *)
 Definition factories_serve (c : config) : Prop := forall n, instance_spec c n -> cannot_create c n = false.
+
+(* pipeline P feeds pipeline Q: Q = P, or through a chain of connector links *)
+Definition feeds (c : config) (P Q : pipeline) : Prop :=
+  exists l, plinks c (P :: l) /\ last_opt (P :: l) = Some Q.
